@@ -158,6 +158,10 @@ func structTypeOf(slots []Slot) reflect.Type {
 		if s.Name == "" {
 			f.Name = fmt.Sprintf("V%d", i)
 			opts = append(opts, "typeOnly")
+			if s.Spell%3 == 1 {
+				// a name part in front of typeOnly is legal and must be ignored
+				tagName = Names[(s.Spell/3)%4]
+			}
 		} else {
 			field, tn := spellName(s.Name, s.Spell)
 			if field == "" {
@@ -186,7 +190,8 @@ func valuesOf(slots []Slot) []argmapper.Value {
 		case s.Spell%3 == 1:
 			n = strings.ToUpper(n)
 		case s.Spell%3 == 2:
-			n = strings.ToUpper(n[:1]) + n[1:]
+			rs := []rune(n)
+			n = strings.ToUpper(string(rs[:1])) + string(rs[1:])
 		}
 		vs = append(vs, argmapper.Value{Name: n, Type: Types[s.Type], Subtype: s.Sub})
 	}
@@ -495,6 +500,9 @@ func (rt *Runtime) buildParty(pi int) error {
 	rt.defaultSlices[pi] = opts
 	if p.Once {
 		opts = append(opts, argmapper.FuncOnce())
+		if pi%2 == 1 {
+			opts = append(opts, argmapper.FuncName(fmt.Sprintf("party%d", pi))) // naming a function must not change it
+		}
 	}
 	if p.InForm == FormBuilt || p.OutForm == FormBuilt {
 		var inSet, outSet *argmapper.ValueSet
